@@ -23,7 +23,9 @@ def classic_envs(ctx: Ctx) -> list:
     import diffrax
     from lerax.env.classic_control import Acrobot, CartPole, ContinuousMountainCar, MountainCar, Pendulum
     envs = [("CartPole", {}, CartPole), ("MountainCar", {}, MountainCar), ("ContinuousMountainCar", {}, ContinuousMountainCar),
-            ("Acrobot", {}, Acrobot), ("Pendulum", {}, Pendulum)]
+            ("Acrobot", {}, Acrobot), ("Pendulum", {}, Pendulum),
+            # a documented option off its default: results must still be a function of the explicit arguments in every mode
+            ("Acrobot", {"torque_max_noise": 0.5}, Acrobot)]
     if ctx.thorough:
         envs += [("CartPole", {"solver": "Euler"}, CartPole), ("CartPole", {"x_threshold": 0.1}, CartPole),
                  ("Pendulum", {"solver": "Euler"}, Pendulum), ("Acrobot", {"solver": "Euler"}, Acrobot)]
@@ -384,6 +386,20 @@ def run_traces(ctx: Ctx, pid: str, only, families=("classic",), modes_every: int
                                         f"{cases[i]['env']}{cases[i]['kw']} under {[k for k, _ in cases[i]['stack']]} ({cases[i]['mode']} actions), "
                                         f"step {l - 1}: failing {mine}; flags term={ev['term']} trunc={ev['trunc']} c_term={ev['c_term']} cnt={ev['cnt']}",
                                         "builtin_env", cases[i]))
+    # TLC stops a trace at its first rejected event; an atom of THIS property that fails later in a trace already rejected for a
+    # clause of another property must not be lost
+    reported = {i for i, (l, clauses) in v.rejected.items() if any(only(c) for c in clauses)}
+    for i, t in enumerate(traces):
+        if i in reported:
+            continue
+        for l, e in enumerate(t["events"]):
+            mine = sorted(a for a, ok in e.get("atoms", {}).items() if not ok and only(a))
+            if mine:
+                rep.violations.append(Violation(f"{pid}:{cases[i]['env']}:" + "+".join(mine),
+                                                f"{cases[i]['env']}{cases[i]['kw']} under {[k for k, _ in cases[i]['stack']]} ({cases[i]['mode']} actions), "
+                                                f"step {l}: failing {mine} (trace already rejected earlier for clauses of another property)",
+                                                "builtin_env", cases[i]))
+                break
     # binding self-test
     good = sorted(v.accepted)
     if not good:
